@@ -33,6 +33,8 @@ type Compiler struct {
 	symbolTable  *SymbolTable
 	// breaks tracks the positions of break statements in the inner-most loop.
 	breaks []int
+
+	verif verifCompilerState // empty unless built with the verif tag
 }
 
 // Bytecode represents raw evy bytecode.
@@ -524,6 +526,7 @@ func (c *Compiler) compileVar(variable *parser.Var) error {
 	if !ok {
 		return fmt.Errorf("%w %s", ErrUndefinedVar, variable.Name)
 	}
+	c.verifNoteVar(symbol) // no-op unless built with the verif tag
 	if symbol.Scope == GlobalScope {
 		return c.emit(OpGetGlobal, symbol.Index)
 	}
@@ -554,6 +557,7 @@ func (c *Compiler) leaveScope() {
 // emitSetVar will emit an OpSetLocal or an OpSetGlobal depending upon
 // the scope of the provided symbol.
 func (c *Compiler) emitSetVar(symbol Symbol) error {
+	c.verifNoteVar(symbol) // no-op unless built with the verif tag
 	if symbol.Scope == GlobalScope {
 		return c.emit(OpSetGlobal, symbol.Index)
 	}
